@@ -686,20 +686,6 @@ says that the hand-written model decides at that site by exactly the operator th
 source change that turns `<` into `<=`, `>` into `>=`, … at a site changes the generated constant and this
 proof obligation stops checking, whether or not a generated case lands on the tie. -/
 
-theorem src_create_time {α : Type} [Field α] [LinearOrder α] [IsStrictOrderedRing α] [Lit α] [LawfulLit α] (speed : α) (su : SpeedUnit) (distance : α) (du : DistanceUnit) (tu : TimeUnit) :
-    some (createTime speed su distance du tu) =
-      (create_time_speed.num (su.convert baseSpeedUnit speed) (zero : α)).bind fun bs =>
-      (create_time_distance.num (du.convert baseDistanceUnit distance) (zero : α)).map fun bd =>
-        if bs || bd then none
-        else some (baseTimeUnit.convert tu (du.convert baseDistanceUnit distance / su.convert baseSpeedUnit speed)) := by
-  simp [createTime, create_time_speed, create_time_distance, Rel.num]
-
-theorem src_create_speed {α : Type} [Field α] [LinearOrder α] [IsStrictOrderedRing α] [Lit α] [LawfulLit α] (time : α) (tu : TimeUnit) (distance : α) (du : DistanceUnit) (su : SpeedUnit) :
-    some (createSpeed time tu distance du su) =
-      (create_speed_time.num (tu.convert baseTimeUnit time) (zero : α)).map fun bt =>
-        if bt then none
-        else some (baseSpeedUnit.convert su (du.convert baseDistanceUnit distance / tu.convert baseTimeUnit time)) := by
-  simp [createSpeed, create_speed_time, Rel.num]
 
 
 /-! ### Generated function bodies
